@@ -98,7 +98,8 @@ func (b *HdlrBox) Type() string {
 
 // Size - calculated size of box
 func (b *HdlrBox) Size() uint64 {
-	size := uint64(boxHeaderSize + 24 + len(b.Name) + 1)
+	// HandlerType is four characters in every decoded box; Encode writes the string as it is
+	size := uint64(boxHeaderSize + 20 + len(b.HandlerType) + len(b.Name) + 1)
 	if b.LacksNullTermination {
 		size--
 	}
